@@ -152,6 +152,10 @@ pub enum E {
     Fn(Func, Box<E>),
     /// explicit (possibly redundant) parentheses written by the user
     Par(Box<E>),
+    /// a number literal that does not fit 64 bits, spelled out (must be rejected)
+    Big(String),
+    /// the name of a `.define` flag (case-sensitive: never re-spelled by the renderer)
+    Flag(String),
 }
 
 impl E {
@@ -182,7 +186,7 @@ impl E {
         }
     }
     pub fn is_atom(&self) -> bool {
-        matches!(self, E::Num(_) | E::Chr(_) | E::Sym(_) | E::Pc | E::Arg(_) | E::Fn(_, _) | E::Par(_))
+        matches!(self, E::Num(_) | E::Chr(_) | E::Sym(_) | E::Pc | E::Arg(_) | E::Fn(_, _) | E::Par(_) | E::Big(_) | E::Flag(_))
     }
     pub fn visit<'a>(&'a self, f: &mut dyn FnMut(&'a E)) {
         f(self);
